@@ -29,7 +29,7 @@ func init() {
 		Phases: func(tier string, seed int64) []Phase {
 			return []Phase{{Name: "stop-states", Run: c11Run, Timeout: 40 * time.Minute}}
 		},
-		MinObserved: []string{"stops", "stops_with_open_connections", "stops_with_handlers_blocked_in_write", "stops_racing_run_startup", "stops_after_connection_churn", "stops_with_clients_connecting_meanwhile", "stops_of_servers_logging_at_debug_level", "stops_while_a_client_steadily_reads_an_endless_response"},
+		MinObserved: []string{"stops", "stops_with_open_connections", "stops_with_handlers_blocked_in_write", "stops_racing_run_startup", "stops_after_connection_churn", "stops_with_clients_connecting_meanwhile", "stops_of_servers_logging_at_debug_level", "stops_while_a_client_steadily_reads_an_endless_response", "stops_right_after_a_silent_tls_peer_connected_with_timeouts_configured"},
 	})
 }
 
@@ -524,6 +524,9 @@ wait:
 	}
 	if blocked > 0 {
 		c.Count("stops_with_handlers_blocked_in_write", 1)
+	}
+	if st.Name == "tls-no-hello+timeouts" {
+		c.Count("stops_right_after_a_silent_tls_peer_connected_with_timeouts_configured", 1)
 	}
 	if st.Name == "steady-reader" && streamed.Load() >= 20 {
 		c.Count("stops_while_a_client_steadily_reads_an_endless_response", 1)
